@@ -16,6 +16,11 @@ CLAIMS = {
         note=TRUST + 'assumes the SmtString invariant (length <= i32::MAX, elements <= MAX_CHAR) for arguments; ghost-predicate axioms are the definitional unfoldings stated in smtlint/rules/c06.py',
         tech='abstract interpretation of MIR with inferred inductive loop invariants (conjunctions of difference constraints and ghost predicates), per-leaf entailment against the SMT-LIB spec',
         ref='5.C06'),
+    'C09': dict(
+        text='static: conversion tables (char_is_digit, str_from_code, str_to_code, str_is_digit, str_len, str_from_int) decided per leaf in both build configurations; str_to_int proved to return the decimal value (ghost predicate Val carried through the loop as an inferred invariant), -1 exactly on empty/non-digit input, and to panic only where the exact value exceeds i32::MAX, with every arithmetic operation and cast discharged in the configuration without overflow checks; vector_lt/vector_le proved to decide at the first difference (ghost predicate Eq).',
+        note=TRUST + 'assumes the SmtString invariant for arguments; i32::to_string is trusted (std); the round trips follow from the tables on paper',
+        tech='abstract interpretation of MIR in two build configurations with inferred inductive loop invariants over ghost predicates; arithmetic-discipline obligations (no unproved wrap/truncation)',
+        ref='5.C09'),
     'C11': dict(
         text='static: interval_cover and class_of_char are interpreted with inferred binary-search invariants; every leaf must entail the set-theoretic meaning of the class it returns for a generic interval index under the partition invariant (sorted, disjoint); comp_witness maintenance in push/from_set, empty_complement, num_classes, valid_class_id, pick_in_class, both iterators and the class_of_set/good_char_set mappings are decided per leaf in both configurations.',
         note=TRUST + 'assumes the CharPartition invariant for `self` (sorted disjoint well-formed intervals, witness <= next start) and documented preconditions of push',
